@@ -19,8 +19,8 @@ IMPORTS = """From Coq Require Import NArith List Bool. Import ListNotations.
 From WV Require Import Cfs.Model C18.Proofs.
 Open Scope N_scope.
 Definition enc (s : seen) : N := match s with Absent => 0 | Untouched => 1 | Changed (Fresh true) => 2 | Changed (Fresh false) => 3 | Changed _ => 4 end.
-Definition run (sh : bool) (fo : N) (bg bu : bool) (st : N) (cr present : bool) : N * bool :=
-  let c := cfg_of sh (match fo with 1 => Some UpdateInPlace | 2 => Some UnlinkAndReplace | _ => None end) bg bu
+Definition run (sh : bool) (fo : N) (bg bu : bool) (st : N) (cr present ro : bool) : N * bool :=
+  let c := (if ro then cfg_ro else cfg_of) sh (match fo with 1 => Some UpdateInPlace | 2 => Some UnlinkAndReplace | _ => None end) bg bu
                   (match st with 0 => Early | 1 => AfterSetSize | 2 => InWrite | 3 => AfterWrite | _ => Success end) cr in
   let r := link c (fs0 present) in (enc (observe (fs0 present) (fst r)), snd r).
 """
@@ -58,7 +58,7 @@ def sha(p):
     return hashlib.sha256(open(p, "rb").read()).hexdigest()
 
 
-def one_run(d, wild, shared, forced, threads1, nofork, prior, stop, how, kill=None):
+def one_run(d, wild, shared, forced, threads1, nofork, prior, stop, how, kill=None, ro=False):
     """returns (exit code, seen class 0 absent / 1 untouched / 2 changed, detail)"""
     point, variant, defsym = how
     out = f"{d}/out.bin"
@@ -90,6 +90,10 @@ def one_run(d, wild, shared, forced, threads1, nofork, prior, stop, how, kill=No
         args.append("--threads=1")
     if nofork:
         args.append("--no-fork")
+    if ro:      # a directory the linker may not modify, holding an old output it may write (run as uid 65534)
+        os.chmod(out, 0o666)
+        os.chmod(d, 0o555)
+        args = ["setpriv", "--reuid=65534", "--regid=65534", "--clear-groups"] + args
     env = dict(os.environ)
     env.pop("WILD_VERIF_POINT", None)
     if kill or point:
@@ -103,13 +107,15 @@ def one_run(d, wild, shared, forced, threads1, nofork, prior, stop, how, kill=No
         if sleeper:
             sleeper.kill()
             sleeper.wait()
+        if ro:
+            os.chmod(d, 0o755)
     if not os.path.lexists(out):
         seen = 0
     else:
         st1 = (os.stat(out).st_ino, sha(out), os.stat(out).st_mtime_ns)
         seen = 1 if (st0 is not None and st1 == st0) else 2
     strays = [f for f in os.listdir(d) if f.endswith(".delete")]
-    return rc, seen, {"args": args[1:], "env": env.get("WILD_VERIF_POINT"), "msg": msg, "strays": strays}
+    return rc, seen, {"args": [a for a in args if not a.startswith("--re") and a not in ("setpriv", "--clear-groups", wild)], "env": env.get("WILD_VERIF_POINT"), "msg": msg, "strays": strays, "ro": ro}
 
 
 def run(chk, replay=None):
@@ -168,6 +174,16 @@ def run(chk, replay=None):
                 shutil.copy(f"{d}/ok.o", f"{sub}/ok.o")
                 m = (False, 0, False, False, prior, stop)
                 cases.append((m, (None, "ok", 5), kp) + one_run(sub, wild, False, 0, False, False, prior, stop, (None, "ok", 5), kill=kp))
+        # a directory wild may not modify (known finding): old output present and writable
+        if shutil.which("setpriv") and os.geteuid() == 0:
+            os.chmod(d, 0o755)
+            for ri, (shared, stop) in enumerate([(True, 2), (False, 2), (True, 1), (True, 4)]):
+                sub = f"{d}/r{ri}"
+                os.makedirs(sub, exist_ok=True)
+                shutil.copy(f"{d}/ok.o", f"{sub}/ok.o")
+                os.chmod(f"{sub}/ok.o", 0o644)
+                m = (shared, 0, False, False, "present", stop)
+                cases.append((m, STOPS[stop][0], "ro") + one_run(sub, wild, shared, 0, False, False, "present", stop, STOPS[stop][0], ro=True))
     finally:
         shutil.rmtree(d, ignore_errors=True)
     # model
@@ -175,7 +191,7 @@ def run(chk, replay=None):
     for (m, how, kp, rc, seen, det) in cases:
         shared, forced, threads1, nofork, prior, stop = m
         b = lambda x: "true" if x else "false"
-        items.append(f"run {b(shared)} {forced} {b(not threads1)} {b(prior == 'busy')} {stop} {b(kp is not None)} {b(prior != 'absent')}")
+        items.append(f"run {b(shared)} {forced} {b(not threads1)} {b(prior == 'busy')} {stop} {b(kp is not None and kp != 'ro')} {b(prior != 'absent')} {b(kp == 'ro')}")
     rc_, out = coq_eval("c18", "Eval vm_compute in [\n" + ";\n".join(items) + "].\n", IMPORTS)
     mres = parse_coq_value(out) if rc_ == 0 else []
     if rc_ != 0 or len(mres) != len(cases):
@@ -188,6 +204,17 @@ def run(chk, replay=None):
         mclass = {0: 0, 1: 1}.get(mseen, 2)
         rep = {"cases": [list(m)], "how": list(how), "kill": kp, "exit": rc, "seen": ["absent", "untouched", "changed"][seen], "model": {"seen": mseen, "exit_zero": mok}, "detail": det}
         failed = rc != 0
+        if kp == "ro":
+            stats["readonly_dir_runs"] = stats.get("readonly_dir_runs", 0) + 1
+            if failed != (not mok) or seen != mclass:
+                stats["model_mismatch"] += 1
+                chk.tie_break("correspondence C18.link (unwritable directory): outcome of the real run differs from the model", rep)
+            if failed and seen == 2:
+                if "C18-unwritable-directory" in known:
+                    chk.known_hit("C18-unwritable-directory", rep)
+                else:
+                    chk.violation(f"wild exits {rc} in a directory it may not modify and leaves the old output overwritten ({det['args']})", rep)
+            continue
         if kp:
             stats["killed_runs"] += 1
             if failed and seen == 2:
